@@ -29,11 +29,13 @@ LAYOUTS = {
 def encode_container(magic: bytes, version: int, l4d2: bool, map_revision: int,
                      lumps: dict[int, tuple[int, bytes, bool]],
                      game_lumps: list[tuple[bytes, int, int, bytes]], order: list[int] | None = None,
-                     align: bool = True) -> bytes:
+                     align: bool = True, odd_lzma: bool = False) -> bytes:
     """lumps: index -> (lump version, data, lzma?); game_lumps: (id, flags, version, data), flags&1 = lzma.
     align=False with the default order reproduces the layout BSP.save is expected to write: lumps in index order with
     the pakfile last, no padding, one NUL between game lumps, a dummy directory entry after a compressed last one."""
     from srctools.binformat import compress_lzma
+    if odd_lzma:
+        compress_lzma = compress_lzma_odd
     buf = io.BytesIO()
     buf.write(struct.pack('<4si', magic, version))
     buf.write(bytes(16 * LUMP_COUNT))
@@ -78,6 +80,17 @@ def encode_container(magic: bytes, version: int, l4d2: bool, map_revision: int,
         buf.write(struct.pack('<4i', ver, off, ln, four) if l4d2 else struct.pack('<4i', off, ln, ver, four))
     buf.seek(end)
     return buf.getvalue()
+
+
+def compress_lzma_odd(data: bytes) -> bytes:
+    """A valid Source LZMA blob that srctools' own writer would never produce: other literal/position bits (lc=0, lp=2,
+    pb=1 instead of 3/0/2), a dictionary size field below the minimum (decoders clamp it to 4096) and one trailing NUL
+    after the stream (seen in TF2 maps).  Written with CPython's lzma only."""
+    import lzma
+    filt = {'id': lzma.FILTER_LZMA1, 'dict_size': 4096, 'lc': 0, 'lp': 2, 'pb': 1}
+    comp = lzma.compress(data, lzma.FORMAT_RAW, filters=[filt])
+    props = (filt['pb'] * 5 + filt['lp']) * 9 + filt['lc']
+    return struct.pack('<4sIIBI', b'LZMA', len(data), len(comp), props, 1024) + comp + b'\0'
 
 
 def decode_container(blob: bytes) -> dict[str, Any]:
@@ -133,8 +146,20 @@ def _f(rng: random.Random) -> float:
 def synth(rng: random.Random, layout: str = 'v20', *, compress: tuple = (), origin_vertex: bool = True,
           faceids: str = 'full', water: bool = True, overlay_aux: bool = True, vis: bool = True,
           n_extra: int = 1, extra_game: bool = False, compress_game: tuple = (), fractional_bounds: bool = False,
-          detail_shapes: bool = False, hdr: bool = True, bad: tuple = (), aux: str = 'normal') -> tuple[bytes, dict]:
+          detail_shapes: bool = False, hdr: bool = True, bad: tuple = (), aux: str = 'normal',
+          adv: bool = True, sprp: Any = 'layout', empty: bool = False, odd_lzma: bool = False) -> tuple[bytes, dict]:
     """Build one consistent BSP. Returns (file bytes, description).
+    `adv` (default on) makes the contents of every table a writer rebuilds or de-duplicates adversarial but valid:
+    texture names that are a prefix / an inner substring / a tail of an EARLIER name (storage the string-pool search may
+    or may not share), two table entries naming the same string, a name of the maximal length 127, an exact duplicate and
+    a near duplicate (same name, other reflectivity) of a texdata record, an exact duplicate of a texinfo record, an exact
+    duplicate and a near duplicate (same normal and distance, other axis type) of a plane, a duplicate vertex, an edge
+    stored in both directions, surfedges naming them, a static-prop model name that is a prefix of another and one that no
+    prop uses.  `adv=False` gives the plain tables of rounds 1-3.
+    `sprp` chooses the static-prop game lump version (record layout): 4, 5, 6, 7, 8, 9, 10, 11, 'lm7', 'lm10' (the Source 2013
+    lightmapped layouts, lump versions 7 and 10 with 72-byte records), 'mesa' (Black Mesa: version 11 in a v20 file, lightmapped + tint + second flag word; a plain 11 needs a v21 file), 12, 13 (Chaos); default: the usual one of the layout.
+    `empty` leaves the tables that are often empty in real maps empty: no static props (the model and leaf dictionaries
+    stay), no detail props, no overlays, no cubemaps.  `odd_lzma` compresses with compress_lzma_odd.
     `aux` puts the contents of the side lumps (the lumps a view clears besides its main lump, which only the view's
     writer can restore) at the values where they LOOK unused: 'zero' = every record of OVERLAY_FADES,
     OVERLAY_SYSTEM_LEVELS, LEAFMINDISTTOWATER, LEAFFACES, LEAFBRUSHES, PRIMINDICES, PRIMVERTS, BRUSHSIDES, TEXDATA and
@@ -159,6 +184,17 @@ def synth(rng: random.Random, layout: str = 'v20', *, compress: tuple = (), orig
 
     # textures / texdata / texinfo
     names = ['TOOLS/TOOLSNODRAW', 'brick/wall01', 'NATURE/water_canals01', 'wall01'][:3 + (n_extra > 0)]
+    if adv:
+        # every later name below is a prefix (P), an inner substring (I) or a tail (T) of an earlier one; each is stored
+        # in full in the file (a writer may share the tails, nothing else); 127 characters is the longest legal name
+        names = ['TOOLS/TOOLSNODRAWPORTALABLE', 'maps/synth/brick/wall01_-64_0_32', 'NATURE/water_canals01a',
+                 'TOOLS/TOOLSNODRAW',            # P of 0
+                 'brick/wall01',                 # I of 1
+                 'wall01_-64_0_32',              # T of 1
+                 'NATURE/water_canals01',        # P of 2
+                 'L/' + 'o' * 124 + 'g',         # 127 characters
+                 'o' * 124,                      # I of the long one
+                 ][:5 + 2 * n_extra]
     if aux == 'zero':
         names = names[:1]       # a single name: the string table is [0]
     sdata = b''
@@ -166,6 +202,9 @@ def synth(rng: random.Random, layout: str = 'v20', *, compress: tuple = (), orig
     for nm in names:
         offs.append(len(sdata))
         sdata += nm.encode() + b'\0'
+    if adv and aux != 'zero':
+        offs.append(offs[1])     # two table entries naming the same stored string
+        names = names + [names[1]]
     d['TEXDATA_STRING_DATA'] = sdata
     d['TEXDATA_STRING_TABLE'] = b''.join(struct.pack('<i', o) for o in offs)
     td = []
@@ -177,19 +216,33 @@ def synth(rng: random.Random, layout: str = 'v20', *, compress: tuple = (), orig
             td.append(struct.pack('<3f3i', 0.25, 0.5, 0.125 * i, i, w, h))
         else:
             td.append(struct.pack('<3f5i', 0.25, 0.5, 0.125 * i, i, w, h, w, h))
+    if adv and aux not in ('zero', 'mixed'):
+        td.append(td[1])                                    # exact duplicate of texdata 1
+        td.append(struct.pack('<3f', 0.75, 0.5, 0.125) + td[1][12:])      # near duplicate: same name and size, other reflectivity
     d['TEXDATA'] = b''.join(td)
-    n_ti = len(names) + 1
-    d['TEXINFO'] = b''.join(struct.pack('<16fii', *[_f(rng) for _ in range(16)], rng.choice([0, 4, 0x80, 0x400]), i % len(names))
-                            for i in range(n_ti))
+    n_ti = len(td) + 1
+    ti = [struct.pack('<16fii', *[_f(rng) for _ in range(16)], rng.choice([0, 4, 0x80, 0x400]), i % len(td)) for i in range(n_ti)]
+    if adv:
+        ti.append(ti[0])                                    # exact duplicate of texinfo 0
+        n_ti += 1
+    d['TEXINFO'] = b''.join(ti)
     # planes, vertexes, edges, surfedges
     n_pl = 4
-    d['PLANES'] = b''.join(struct.pack('<ffffi', *(1.0, 0.0, 0.0) if i % 2 else (0.0, 0.0, 1.0), _f(rng), (0, 2, 3, 5)[i % 4])
-                           for i in range(n_pl))
+    pl = [struct.pack('<ffffi', *(1.0, 0.0, 0.0) if i % 2 else (0.0, 0.0, 1.0), _f(rng), (0, 2, 3, 5)[i % 4]) for i in range(n_pl)]
+    if adv:
+        pl.append(pl[0])                                    # exact duplicate of plane 0 (brush side 4 names it)
+        pl.append(pl[1][:16] + struct.pack('<i', 4))        # near duplicate of plane 1: other axis type
+        n_pl = 6
+    d['PLANES'] = b''.join(pl)
     verts = [(0.0, 0.0, 0.0) if origin_vertex else (8.0, 0.0, 0.0)] + [(_f(rng), _f(rng), 16.0 + i) for i in range(5)]
-    d['VERTEXES'] = b''.join(struct.pack('<fff', *v) for v in verts)
     edges = [(0, 0), (1, 2), (2, 3), (3, 1), (3, 4), (4, 5)]
-    d['EDGES'] = b''.join(L['EDGE'].pack(a, b) for a, b in edges)
     surfedges = [1, 2, 3, -1, 4, -3, 5, -5]
+    if adv:
+        verts.append(verts[1])                              # a second vertex at the position of vertex 1
+        edges += [(6, 2), (2, 1)]                           # an edge from the duplicate vertex; edge 1 stored reversed as well
+        surfedges += [6, 7, -6, -7]
+    d['VERTEXES'] = b''.join(struct.pack('<fff', *v) for v in verts)
+    d['EDGES'] = b''.join(L['EDGE'].pack(a, b) for a, b in edges)
     d['SURFEDGES'] = b''.join(struct.pack('i', s) for s in surfedges)
     # primitives
     if not vit:
@@ -229,12 +282,12 @@ def synth(rng: random.Random, layout: str = 'v20', *, compress: tuple = (), orig
     # brushes
     n_br = 2
     if vit:
-        d['BRUSHSIDES'] = b''.join(L['BRUSHSIDE'].pack(i % n_pl, i % n_ti, 0, i % 2, 0) for i in range(5))
+        d['BRUSHSIDES'] = b''.join(L['BRUSHSIDE'].pack(i % n_pl, i % n_ti, 0, i % 2, 0) for i in range(6 if adv else 5))
     else:
-        d['BRUSHSIDES'] = b''.join(L['BRUSHSIDE'].pack(i % n_pl, i % n_ti, 0, (i % 2) | (2 if i == 3 else 0)) for i in range(5))
+        d['BRUSHSIDES'] = b''.join(L['BRUSHSIDE'].pack(i % n_pl, i % n_ti, 0, (i % 2) | (2 if i == 3 else 0)) for i in range(6 if adv else 5))
     if aux == 'zero':
         d['BRUSHSIDES'] = bytes(len(d['BRUSHSIDES']))
-    d['BRUSHES'] = struct.pack('<iii', 0, 3, 1) + struct.pack('<iii', 3, 2, 32 if water else 1)
+    d['BRUSHES'] = struct.pack('<iii', 0, 3, 1) + struct.pack('<iii', 3, 3 if adv else 2, 32 if water else 1)      # adv: side 5 lies on the near-duplicate plane
     # leafs
     n_leaf = 3
     leafs = []
@@ -281,6 +334,10 @@ def synth(rng: random.Random, layout: str = 'v20', *, compress: tuple = (), orig
         '{\n"classname" "logic_relay"\n"targetname" "rl"\n"origin" "0 0 16"\n'
         f'"OnTrigger" "br{sep}Kill{sep}{sep}0.5{sep}-1"\n"OnTrigger" "!self{sep}FireUser1{sep}a b{sep}0{sep}1"\n}}\n'
         '{\n"classname" "info_target"\n"message" "a, b"\n"angles" "0 90 0"\n}\n'
+        # adv: text that the entity writer has to escape again (quote, backslash-n, backslash, tab), blanks at both ends,
+        # braces inside a value, an empty value
+        + ('{\n"classname" "env_message"\n"message" "say \\"hi\\"\\n now"\n"path" "a\\\\b"\n"tabbed" "a\tb"\n"lead" " x "\n'
+           '"brace" "a { b } c"\n"empty" ""\n}\n' if adv else '')
     ).encode('ascii') + b'\x00'
     # visibility (2 clusters; rows of 1 byte, run-length coded)
     if vis:
@@ -289,13 +346,13 @@ def synth(rng: random.Random, layout: str = 'v20', *, compress: tuple = (), orig
         d['VISIBILITY'] = head + b''.join(rows)
     # overlays
     ov = []
-    for i in range(n):
+    for i in range(0 if empty else n):
         faces_arr = [0, 1][:1 + i % 2]
         ov.append(struct.pack('<ihH', 7 + i, i % n_ti, (i % 4) << 14 | len(faces_arr))
                   + struct.pack(f'<{len(faces_arr)}i{4 * (64 - len(faces_arr))}x', *faces_arr)
                   + struct.pack('<4f', 0.0, 1.0, 0.0, 1.0) + struct.pack('<18f', *[_f(rng) for _ in range(18)]))
     d['OVERLAYS'] = b''.join(ov)
-    if overlay_aux:
+    if overlay_aux and not empty:
         d['OVERLAY_FADES'] = b''.join(struct.pack('<ff', -1.0, 4.0 * i) for i in range(n))
         d['OVERLAY_SYSTEM_LEVELS'] = b''.join(struct.pack('<4B', 0, 3, 1, 2) for i in range(n))
         if aux == 'zero':
@@ -307,7 +364,7 @@ def synth(rng: random.Random, layout: str = 'v20', *, compress: tuple = (), orig
             d['OVERLAY_SYSTEM_LEVELS'] = bytes(4) + d['OVERLAY_SYSTEM_LEVELS'][4:]
         elif aux == 'maxed':
             d['OVERLAY_FADES'], d['OVERLAY_SYSTEM_LEVELS'] = struct.pack('<ff', 0.0, 1.0) * n, b'\xff' * (4 * n)
-    d['CUBEMAPS'] = b''.join(struct.pack('<iiii', 16 * i, -16, 72, i % 8) for i in range(n + 1))
+    d['CUBEMAPS'] = b''.join(struct.pack('<iiii', 16 * i, -16, 72, i % 8) for i in range(0 if empty else n + 1))
     # pakfile
     zb = io.BytesIO()
     with zipfile.ZipFile(zb, 'w', zipfile.ZIP_STORED) as zf:
@@ -323,6 +380,8 @@ def synth(rng: random.Random, layout: str = 'v20', *, compress: tuple = (), orig
     # game lumps
     leaf_fmt = L['STATICPROPLEAF']
     model_names = ['models/props/a.mdl', 'models/props_c17/b.mdl']
+    if adv:     # a name that is a prefix of another; the last one is used by no prop
+        model_names = ['models/props/a.mdl_lod1', 'models/props/a.mdl', 'models/props_c17/b.mdl']
     sp = io.BytesIO()
     sp.write(struct.pack('<i', len(model_names)))
     for nm in model_names:
@@ -331,34 +390,51 @@ def synth(rng: random.Random, layout: str = 'v20', *, compress: tuple = (), orig
     sp.write(struct.pack('<i', len(leaf_arr)))
     for x in leaf_arr:
         sp.write(leaf_fmt.pack(x))
-    sp.write(struct.pack('<i', n))
-    if chaos:
+    n_props = 0 if empty else n
+    sp.write(struct.pack('<i', n_props))
+    if sprp != 'layout':
+        sp_ver = sprp
+    elif chaos:
         sp_ver = 12
     else:
         sp_ver = {'v19': 5, 'v20': 6, 'v21': 9, 'l4d2': 9, 'infra': 10, 'vitamin': 6}[layout]
-    for i in range(n):
+    lightmapped = sp_ver in ('lm7', 'lm10', 'mesa')
+    sdk2013 = sp_ver in ('lm7', 'lm10')
+    mesa = sp_ver == 'mesa'
+    lay = 7 if lightmapped else sp_ver          # the version number the record layout follows
+    for i in range(n_props):
         first, cnt = [(0, 2), (2, 1)][i % 2]
         rec = struct.pack('<3f3fH', _f(rng), _f(rng), _f(rng), 0.0, 90.0 * i, 0.0, i % 2)
-        rec += struct.pack('<HHBBiff', first, cnt, 6, 0 if sp_ver >= 9 else 0x04, i, -1.0, 0.0)
+        rec += struct.pack('<HHBBiff', first, cnt, 6, 0 if (lay >= 9 or lightmapped) else 0x04, i, -1.0, 0.0)
         rec += struct.pack('<fff', _f(rng), _f(rng), _f(rng))
-        rec += struct.pack('<f', 1.0)
-        if sp_ver in (6, 7):
+        if lay >= 5:
+            rec += struct.pack('<f', 1.0)
+        if lay in (6, 7):
             rec += struct.pack('<HH', 0, 0)
-        if sp_ver >= 8:
+        if lay >= 8:
             rec += struct.pack('<BBBB', 0, 0, 1, 3)
-        if sp_ver >= 7:
+        if lightmapped:
+            rec += struct.pack('<IHH', 0x04, 16 << i, 32)
+        if lay >= 7 and not sdk2013:
             rec += struct.pack('<BBBB', 255, 128, 64 + i, 255)
-        if sp_ver >= 9:
+        if lay >= 9 and not lightmapped:
             rec += struct.pack('<?xxx', bool(i % 2))
-        if sp_ver >= 10:
+        if lay >= 10 or mesa:
             rec += struct.pack('<I', 0)
-        if sp_ver >= 11:
+        if lay == 13:
+            rec += struct.pack('<fff', 1.5, 1.0, 0.5)
+        elif lay >= 11:
             rec += struct.pack('<f', 1.5)
         sp.write(rec)
+    if lightmapped:
+        sp_ver = {'lm7': 7, 'lm10': 10, 'mesa': 11}[sp_ver]
     dp = io.BytesIO()
-    dp.write(struct.pack('<i', 1) + struct.pack('<128s', b'models/props_foliage/grass.mdl'))
-    dp.write(struct.pack('<i', 1) + struct.pack('<8f', -8, 16, 8, 0, 0.0, 0.0, 0.5, 0.5))
-    kinds = [0, 1] + ([2, 3] if detail_shapes else [])
+    dp.write(struct.pack('<i', 2 if adv else 1) + struct.pack('<128s', b'models/props_foliage/grass.mdl'))
+    if adv:     # a second dictionary entry (a prefix of the first) that no detail prop uses
+        dp.write(struct.pack('<128s', b'models/props_foliage/grass'))
+    sprite = struct.pack('<8f', -8, 16, 8, 0, 0.0, 0.0, 0.5, 0.5)
+    dp.write(struct.pack('<i', 2 if adv else 1) + sprite + (sprite if adv else b''))      # adv: the same sprite twice
+    kinds = [] if empty else [0, 1] + ([2, 3] if detail_shapes else [])
     dp.write(struct.pack('<i', len(kinds)))
     for k in kinds:
         dp.write(struct.pack('<3f3fHH4BI5B3xB3xf', _f(rng), _f(rng), 8.0, 0.0, 45.0, 0.0, 0, 1 + k % 2, 255, 200, 100, 255,
@@ -394,9 +470,9 @@ def synth(rng: random.Random, layout: str = 'v20', *, compress: tuple = (), orig
         lumps[idx] = (lver, data, nm in compress and nm != 'PAKFILE')
     lumps[35] = (0, b'', False)
     rev = rng.randint(1, 5000)
-    blob = encode_container(magic, version, l4d2, rev, lumps, games)
+    blob = encode_container(magic, version, l4d2, rev, lumps, games, odd_lzma=odd_lzma)
     desc = dict(layout=layout, compress=sorted(compress), compress_game=sorted(compress_game), origin_vertex=origin_vertex,
                 faceids=faceids, water=water, overlay_aux=overlay_aux, vis=vis, n_extra=n_extra, extra_game=extra_game,
-                fractional_bounds=fractional_bounds, detail_shapes=detail_shapes, hdr=hdr, bad=sorted(bad), aux=aux, map_revision=rev, size=len(blob))
+                fractional_bounds=fractional_bounds, detail_shapes=detail_shapes, hdr=hdr, bad=sorted(bad), aux=aux, adv=adv, sprp=sprp, empty=empty, odd_lzma=odd_lzma, map_revision=rev, size=len(blob))
     desc['_parts'] = dict(magic=magic, version=version, l4d2=l4d2, map_revision=rev, lumps=lumps, games=games)
     return blob, desc
